@@ -760,6 +760,9 @@ def replay_ops(cfg, ops, persistence_file=None):
             drv.recv(op[1], now=op[2])
         elif k == "pump":
             drv.pump()
+        elif k == "drain":
+            while drv.flavour == "sync" and drv.gw.tasks.queue:
+                drv.pump()
         elif k == "set_child":
             drv.set_child(op[1], op[2], op[3], op[4], ack=op[5], key_as_str=op[6])
         elif k == "update_fw":
